@@ -44,6 +44,7 @@ FIXES = {  # subject prefix -> properties whose check must fire when the fix is 
     "fix: groupby-apply compares": ["C38"],
     "fix: assigning to a column": ["C36"],
     "fix: groupby selections": ["C38"],
+    "fix: blelloch scans": ["C22"],
 }
 
 
